@@ -248,6 +248,19 @@ func (vc *FnVC) callContract(in *ssa.Call, callee *ssa.Function, fc *FuncContrac
 			post.vars["result"] = results[i]
 		}
 	}
+	// results declared fresh by the callee are new objects: distinct from everything the
+	// caller already has, and writable without frame permission
+	for _, e := range fc.Ensures {
+		for _, nm := range freshNames(e.Expr) {
+			if t, ok := post.vars[nm]; ok {
+				ref := t.S
+				if t.Sort == "Slice" {
+					ref = fmt.Sprintf("(s.arr %s)", t.S)
+				}
+				vc.registerFresh(ref)
+			}
+		}
+	}
 	for _, e := range fc.Ensures {
 		s, err := post.ElabBool(e.Expr)
 		if err != nil {
